@@ -35,7 +35,7 @@ CONSTANTS Fam,              \* "v3" | "v5"
 
 Str1 == {<<>>, <<97>>, <<195, 169>>}                       \* "", "a", "e'"
 Str2 == {<<>>, <<97, 47, 98>>}                             \* "", "a/b"
-TopicNames == {<<>>, <<97, 47, 98>>, <<36, 83, 89, 83, 47, 120>>}      \* "", "a/b", "$SYS/x"
+TopicNames == {<<>>, <<97, 47, 98>>, <<36, 83, 89, 83, 47, 120>>, <<36, 115, 104, 97, 114, 101, 47, 103, 47, 116>>}   \* "", "a/b", "$SYS/x", "$share/g/t" (a NAME)      \* "", "a/b", "$SYS/x"
 Filters == {<<97, 47, 43>>, <<35>>, <<36, 115, 104, 97, 114, 101, 47, 103, 47, 97, 47, 35>>}   \* "a/+", "#", "$share/g/a/#"
 Bins == {<<>>, <<0, 255>>}
 Pids == {1, 65535}
